@@ -112,13 +112,18 @@ def deep_tree(bare=False):
 
 def effective_policy(t, path, root_policy):
     """a command's policy is the one set in its own initialiser, otherwise the one its parent had when it declared it"""
-    by_path = {n["path"]: n for n in t["nodes"]}
-    parts = path.split(" ")
+    parent = {}
+    for i, n in enumerate(t["nodes"]):
+        for s_ in n["subs"]:
+            parent[s_] = i
+    idx = [i for i, n in enumerate(t["nodes"]) if n["path"] == path][0]
+    chain = [idx]
+    while chain[-1] in parent:
+        chain.append(parent[chain[-1]])
     pol = root_policy
-    for i in range(len(parts)):
-        n = by_path[" ".join(parts[:i + 1])]
-        if n.get("policy"):
-            pol = n["policy"]
+    for i in reversed(chain):
+        if t["nodes"][i].get("policy"):
+            pol = t["nodes"][i]["policy"]
     return pol
 
 
@@ -132,6 +137,35 @@ def ints_tree():
     for base in ([], ["c1"]):
         for tail in (["-n=7"], ["-n= 7"], ["-n=7 "], ["-n=7", "-n=\t12"], ["-n=12", "-n=7"], ["-n", "7"], ["-n", " 7"], ["-n=zz"], ["-n=7", "-n=zz"], ["-n= "]):
             vectors.append(base + tail)
+    return {"version": "", "nodes": nodes, "vectors": vectors}
+
+
+def blank_tree():
+    """the application's name contains blanks (a program path with a space)"""
+    root = "my tool"
+    nodes = [node([root], root, g.Seq(g.Optional(F), g.Optional(X)), subs=[1]),
+             node(["c1", "k1"], root + " c1", g.Seq(g.Optional(X)), subs=[2]),
+             node(["d1"], root + " c1 d1", g.Seq(g.Optional(F)))]
+    vectors = []
+    for base in ([], ["c1"], ["k1", "d1"]):
+        for extra in ([], ["-h"], ["--help"], ["x"], ["-g"], ["-f"], ["x", "y", "z"]):
+            vectors.append(base + extra)
+    return {"version": "", "nodes": nodes, "vectors": vectors, "root": root}
+
+
+def cluster_tree():
+    """levels without positionals: a folded group that ends in the valued option, its value in the next token, then a sub command
+    name; a string-valued option -s next to a lone dash; an Int ARGUMENT N"""
+    P = {"opts": [{"names": "f force", "flag": True}, {"names": "n", "flag": False}, {"names": "s str", "flag": False}], "args": ["N"]}
+    P0 = dict(P, args=[])      # these levels declare no argument at all
+    S = g.Opt("-s")
+    nodes = [node(["app"], "app", g.Seq(g.Optional(F), g.Optional(NN), g.Optional(S)), subs=[1, 2], prog=P0),
+             node(["run", "r"], "app run", g.Seq(g.Optional(F), g.Optional(NN)), prog=P0),
+             node(["num"], "app num", g.Seq(g.Optional(S), g.Arg("N"), g.Optional(g.Arg("N"))), prog=P)]
+    vectors = [["-fn", "7", "run"], ["-f", "-n", "7", "run"], ["-fn7", "run"], ["-fn=7", "r"], ["-n", "7", "run", "-fn", "12"], ["-fn", "run"], ["-fn", "zz", "run"],
+               ["-s", "-"], ["-s", "-", "run"], ["--str", "-", "run"], ["-fs", "-", "run"], ["-s=-", "run"], ["-s", "v", "run"], ["-s-", "run"],
+               ["num", "7"], ["num", "zz"], ["num", "7", "zz"], ["num", "--", "-x"], ["num", "--", "7"], ["num", "-s", "v", "12"], ["num", "-s", "-", "12"], ["num"], ["num", "7", "12"],
+               ["-g", "run"], ["-g", "num", "7"], ["-h", "run"], ["--bogus", "num"]]
     return {"version": "", "nodes": nodes, "vectors": vectors}
 
 
@@ -234,7 +268,7 @@ def tla_input(trs, alphabet, maxlen, policies):
         nodes = []
         for n in t["nodes"]:
             nodes.append({"names": n["names"], "path": n["path"], "prog": g.prog_tla(n["prog"]), "ast": n["ast"],
-                          "hasgrp": g.has(n["ast"], "grp"), "hasend": g.has(n["ast"], "end"), "subs": [i + 1 for i in n["subs"]], "action": n["action"]})
+                          "hasgrp": g.has(n["ast"], "grp"), "hasend": g.has(n["ast"], "end"), "subs": [i + 1 for i in n["subs"]], "action": n["action"], "policy": n.get("policy", "")})
         ver = []
         if t["version"]:
             ver = [("-" if len(x) == 1 else "--") + x for x in t["version"].split()]
@@ -245,9 +279,9 @@ def tla_input(trs, alphabet, maxlen, policies):
 def harness_case(t, policy, argv, prerun=()):
     nodes = []
     for n in t["nodes"]:
-        nodes.append({"names": n["names"], "path": n["path"], "spec": n["spec"], "opts": [o for o in n["prog"]["opts"] if o["flag"]], "intopt": "n",
-                      "args": ["X"], "subs": n["subs"], "action": n["action"], "bare": n.get("bare", False), "hidden": n.get("hidden", False), "policy": n.get("policy", ""), "late": n.get("late", False), "intmulti": n.get("intmulti", False)})
-    return {"nodes": nodes, "version": t["version"], "policy": policy, "argv": argv, "prerun": [list(p) for p in prerun]}
+        nodes.append({"names": n["names"], "path": n["path"], "spec": n["spec"], "opts": [o for o in n["prog"]["opts"] if o["names"] != "n"], "intopt": "n",
+                      "args": list(n["prog"]["args"]), "subs": n["subs"], "action": n["action"], "bare": n.get("bare", False), "hidden": n.get("hidden", False), "policy": n.get("policy", ""), "late": n.get("late", False), "intmulti": n.get("intmulti", False)})
+    return {"nodes": nodes, "version": t["version"], "policy": policy, "argv": argv, "prerun": [list(p) for p in prerun]}     # N: an Int argument
 
 
 def predict(workdir, trs, alphabet, maxlen, policies, timeout=3000):
@@ -272,11 +306,12 @@ def predict(workdir, trs, alphabet, maxlen, policies, timeout=3000):
 
 def strip_int(m, path=""):
     """the Int option is a built-in variable, and the application's version flag is the library's own: neither is recorded"""
-    return frozenset((k, v) for k, v in m if k != "O:-n" and not (path == "app" and k == "O:-v"))
+    return frozenset((k, v) for k, v in m if k not in ("O:-n", "A:N") and not (path == "app" and k == "O:-v"))
 
 
-def expected_log(path):
-    parts = path.split(" ")
+def expected_log(path, root="app"):
+    """the application's name may contain blanks; command names do not"""
+    parts = [root] + [x for x in path[len(root):].split(" ") if x]
     paths = [" ".join(parts[:i + 1]) for i in range(len(parts))]
     return ["B:" + p for p in paths] + ["ACT:" + path] + ["A:" + p for p in reversed(paths)]
 
@@ -287,10 +322,10 @@ def judge(c, r):
     out = []
     if r.get("hang") or r.get("crash"):
         return [("routing", "hang/crash %s" % r)]
-    kind, path, pol = c["kind"], c["path"], c.get("node_policy") or c["policy"]
+    kind, path, pol = c["kind"], c["path"], c.get("npolicy") or c["policy"]    # npolicy: CmdTree.tla's policy of the acting command
     if kind == "run":
-        if r["log"] != expected_log(path):
-            out.append(("routing", "hooks/actions ran %s, specification says %s" % (r["log"], expected_log(path))))
+        if r["log"] != expected_log(path, c.get("root", "app")):
+            out.append(("routing", "hooks/actions ran %s, specification says %s" % (r["log"], expected_log(path, c.get("root", "app")))))
         for lv in c["levels"]:
             obs = frozenset((k, tuple(v)) for k, v in r["binds"].get(lv["path"], {}).items())
             if obs not in set(strip_int(m, lv["path"]) for m in lv["acc"]):
@@ -303,6 +338,8 @@ def judge(c, r):
     if r["log"]:
         out.append(("routing" if kind != "help" else "help", "%s: nothing may run, but %s ran" % (kind, r["log"])))
     if kind == "reject":
+        if r.get("panic") and not r["panic"].startswith("error:"):
+            out.append(("routing", "a rejected invocation must end in a usage error, Run panicked with %r" % r["panic"]))
         if not r["errors"]:
             out.append(("policy", "rejection wrote no Error line"))
         if not any(u == "Usage: " + path or u.startswith("Usage: " + path + " ") for u in r["usages"]) or (r["usages"] and r["usages"][0].split(" COMMAND")[0] != r["usages"][0].split(" COMMAND")[0]):
